@@ -22,7 +22,7 @@ from harness import core  # noqa: E402
 
 def match_finding(f, prop, v):
     """A known finding suppresses a verdict only if property, clause and every listed feature match."""
-    if f.get("property") != prop:
+    if f.get("property") != prop and prop not in f.get("also", []):
         return False
     if f.get("clause") and f["clause"] != v.get("clause"):
         return False
